@@ -10,7 +10,9 @@
 #define MUTEX_MONITOR_H
 #include <pthread.h>
 #include "vh.h"
+#ifndef MON_MAX
 #define MON_MAX 64
+#endif
 static int g_mutex_held = 0, g_mutex_locks = 0, g_unlocked_access = 0;
 static unsigned char* g_mon_data = 0; static unsigned char* g_mon_old = 0; static size_t g_mon_len = 0;
 /* optional harness hook (havoc further protected state): #define MON_HOOK fn before including this file */
